@@ -1,5 +1,202 @@
-//! C05 harness (stub: not implemented yet).
+//! C05 — the state of a collaborative object is a function of its change set.
+//!
+//! Case: `<changes> <tipsets> ord=<ranks>` (syntax in `cobworld.rs` / `Driver/C05.lean`). The changes are
+//! stored as real change commits of a real issue; every tip set (an ordered list of tip references,
+//! possibly with duplicates, interior commits or a commit that is not a change) is loaded and evaluated
+//! by the real `ChangeGraph::load` + `evaluate`, once as `Issue` and once as the raw entry list (which
+//! shows the traversal order). The first tip set is also installed as namespace refs and read through
+//! the real `radicle_cob::get`. `ord` is the order of the change oids, computed here and appended to the
+//! case text (an opaque function of the model).
+//!
+//! Oracle: tip sets with the same reachable loadable changes must give identical results (object JSON,
+//! history, traversal order); `get` through namespace refs must agree with the explicit tip list.
+
+mod cobworld;
+
+use cobworld::*;
+use verif_common::*;
+
+fn run_case(w: &mut World, input: &str) -> (String, Outcome) {
+    let toks: Vec<&str> = input.split(' ').collect();
+    let bad = |i: &str| (i.to_string(), Outcome::new("bad-case").trivial().tag("bad-case"));
+    if toks.len() < 2 || toks.len() > 3 {
+        return bad(input);
+    }
+    let Some(chs) = parse_changes(toks[0]) else { return bad(input) };
+    let Some(tipsets) = toks[1].split('/').map(|t| parse_refs(t, ',')).collect::<Option<Vec<_>>>() else { return bad(input) };
+    if tipsets.iter().flatten().any(|t| matches!(t, Some(i) if *i >= chs.len())) {
+        return bad(input);
+    }
+    w.used += 1;
+    let b = match build(w, &chs) {
+        Ok(b) => b,
+        Err(e) => return (input.to_string(), Outcome::new(format!("store-failed:{e}")).trivial()),
+    };
+    let ord = format!("ord={}", b.ord.iter().map(|x| x.to_string()).collect::<Vec<_>>().join(","));
+    let canon = format!("{} {} {}", toks[0], toks[1], ord);
+    let mut o = Outcome::new("");
+    if toks.len() == 3 && toks[2] != ord {
+        o.tags.push("oid-order-differs-from-recorded".into());
+    }
+    let mut outs = vec![];
+    // (closure, exact result) per tip set
+    let mut exact: Vec<(std::collections::BTreeSet<usize>, String)> = vec![];
+    for (k, tips) in tipsets.iter().enumerate() {
+        let raw = eval_raw(w, &b, tips);
+        let (txt, json) = match eval_issue(w, &b, tips) {
+            Ok(None) => ("none".to_string(), String::new()),
+            Ok(Some(v)) => (v.text, v.json),
+            Err(e) => (e, String::new()),
+        };
+        if k == 0 && tips.len() <= N_ACTORS && tips.iter().all(|t| t.is_some()) && !tips.is_empty() {
+            let plain: Vec<usize> = tips.iter().flatten().copied().collect();
+            let via = match eval_issue_via_refs(w, &b, &plain) {
+                Ok(None) => "none".to_string(),
+                Ok(Some(v)) => format!("{}#{}", v.text, v.json),
+                Err(e) => e,
+            };
+            let direct = if json.is_empty() { txt.clone() } else { format!("{txt}#{json}") };
+            o.tags.push("via-namespace-refs".into());
+            if via != direct {
+                o.violations.push(("get-differs-from-explicit-tips".into(), format!("get: {via} explicit: {direct}")));
+            }
+        }
+        o.tags.push(match txt.as_str() {
+            "none" => "res-none",
+            "missing-root" => "res-missing-root",
+            "init-err" => "res-init-err",
+            _ if txt.starts_with('T') => "res-object",
+            _ => "res-other-error",
+        }
+        .into());
+        exact.push((closure(&chs, tips), format!("{raw}|{txt}#{json}")));
+        outs.push(format!("{raw}|{txt}"));
+    }
+    // the property: same change set => same result
+    let mut groups = 0;
+    for i in 0..exact.len() {
+        if exact[..i].iter().all(|e| e.0 != exact[i].0) {
+            groups += 1;
+        }
+        for j in 0..i {
+            if exact[i].0 == exact[j].0 && exact[i].1 != exact[j].1 {
+                o.violations.push((
+                    "state-depends-on-tip-enumeration".into(),
+                    format!("tip sets {j} and {i} reach the same changes but give {} vs {}", exact[j].1, exact[i].1),
+                ));
+                break;
+            }
+        }
+    }
+    // distribution: ties, merges, rejected changes, dangling parents
+    let ties = (0..chs.len()).any(|i| (0..i).any(|j| chs[i].ts == chs[j].ts && chs[i].parents.iter().any(|p| chs[j].parents.contains(p))));
+    if ties {
+        o.tags.push("sibling-timestamp-tie".into());
+    }
+    if chs.iter().any(|c| c.parents.len() > 1) {
+        o.tags.push("merge".into());
+    }
+    if chs.iter().any(|c| c.parents.contains(&None)) {
+        o.tags.push("unloadable-parent".into());
+    }
+    if (1..chs.len()).any(|i| !accepted(&chs, i)) {
+        o.tags.push("has-rejected-change".into());
+    }
+    o.tags.push(format!("tipsets-{}", match tipsets.len() { 0..=2 => "1-2", 3..=8 => "3-8", _ => "9+" }));
+    o.tags.push(format!("closure-groups-{}", groups.min(4)));
+    o.nontrivial = tipsets.len() >= 2 && chs.len() >= 3;
+    o.output = outs.join("/");
+    (canon, o)
+}
+
+fn permutations(xs: &[usize]) -> Vec<Vec<usize>> {
+    if xs.len() <= 1 {
+        return vec![xs.to_vec()];
+    }
+    let mut out = vec![];
+    for i in 0..xs.len() {
+        let mut rest = xs.to_vec();
+        let x = rest.remove(i);
+        for mut p in permutations(&rest) {
+            p.insert(0, x);
+            out.push(p);
+        }
+    }
+    out
+}
+
+fn show_tips(t: &[Option<usize>]) -> String {
+    if t.is_empty() {
+        return "-".into();
+    }
+    t.iter().map(|x| x.map(|i| i.to_string()).unwrap_or("x".into())).collect::<Vec<_>>().join(",")
+}
+
+fn gen_case(rng: &mut Rng, max_n: u64) -> String {
+    let n = rng.range(2, max_n) as usize;
+    let chs = gen_changes(rng, n, 12, true);
+    let hs = heads(&chs);
+    let mut sets: Vec<Vec<Option<usize>>> = vec![];
+    // every permutation of the heads (the namespaces' tips) when there are few, else some
+    let perms = if hs.len() <= 4 { permutations(&hs) } else { (0..8).map(|_| { let mut p = hs.clone(); for i in (1..p.len()).rev() { p.swap(i, rng.below(i as u64 + 1) as usize); } p }).collect() };
+    for p in perms {
+        sets.push(p.into_iter().map(Some).collect());
+    }
+    // same closure through more references: interior commits, duplicates, a non-change commit
+    for _ in 0..3 {
+        let mut s: Vec<Option<usize>> = hs.iter().map(|h| Some(*h)).collect();
+        for _ in 0..rng.range(1, 3) {
+            s.insert(rng.below(s.len() as u64 + 1) as usize, Some(rng.below(chs.len() as u64) as usize));
+        }
+        if rng.chance(1, 3) {
+            s.insert(rng.below(s.len() as u64 + 1) as usize, None);
+        }
+        sets.push(s);
+    }
+    // namespace subsets: some with the same closure, some with a smaller one
+    for _ in 0..3 {
+        let s: Vec<Option<usize>> = (0..chs.len()).filter(|_| rng.chance(1, 3)).map(Some).collect();
+        if !s.is_empty() {
+            let mut s = s;
+            if rng.bool() {
+                s.reverse();
+            }
+            sets.push(s);
+        }
+    }
+    if rng.chance(1, 10) {
+        sets.push(vec![None]);
+    }
+    format!("{} {}", show_changes(&chs), sets.iter().map(|s| show_tips(s)).collect::<Vec<_>>().join("/"))
+}
+
 fn main() {
-    eprintln!("C05: harness not implemented");
-    std::process::exit(3);
+    let mut ctx = Ctx::from_args("C05");
+    let mut w = World::new();
+    // corpus / replay lines may lack (or carry an outdated) `ord=` token: it is recomputed and recorded
+    let (inputs, is_replay) = ctx.fixed_inputs();
+    for i in inputs {
+        let (canon, o) = run_case(&mut w, &i);
+        ctx.count("corpus-or-replay");
+        ctx.record(&canon, o);
+    }
+    if !is_replay {
+        let mut rng = ctx.rng();
+        for _ in 0..ctx.size(60, 900) {
+            if w.used % 40 == 39 {
+                w = World::new();
+            }
+            let input = gen_case(&mut rng, ctx.size(8, 12));
+            let (canon, o) = run_case(&mut w, &input);
+            ctx.record(&canon, o);
+        }
+    }
+    ctx.finish(
+        "random issue histories (2-8, thorough 2-12 changes; concurrent branches, merges, timestamps from a 4-value domain so that \
+         sibling ties are frequent, changes the issue type rejects, parents that are not changes) stored as real change commits; \
+         loaded through every permutation of the DAG heads (<=4 heads, else 8 random ones), through supersets with interior \
+         commits / duplicates / a non-change commit, and through random subsets; first tip set also through real namespace refs \
+         and radicle_cob::get; non-trivial = >=3 changes and >=2 tip sets; distinct by input text",
+        false,
+    );
 }
